@@ -2,8 +2,9 @@
     with celeritas/phys/FourVector.hh (boost_vector, boost).  The momentum-transfer sampler
     (detail::MomentumTransferSampler, CHIPS parameterisation) is an ORACLE: its value Q^2 [MeV^2] is an
     input; its contract (clamp(q_sq, 0, max_q_sq), max_q_sq = 4 M^2 p^2 / (2 M E + m^2 + M^2) = 4 p_cm^2)
-    is the hypothesis 0 <= Q^2 <= 4 p_cm^2 of the theorems.  NB: the interactor does NOT clamp
-    cos(theta) (CELER_ASSERT is compiled out).  Executable over any [Num]; no proofs here. *)
+    is the hypothesis 0 <= Q^2 <= 4 p_cm^2 of the energy theorems.  cos(theta) is clamped to [-1, 1] since /repo
+    commit 2618c34 ([chips_final]); [chips_final_unclamped] is the code before that repair (kept for the
+    _before_repair_refuted witness).  Executable over any [Num]; no proofs here. *)
 From Coq Require Import ZArith List Bool.
 From Celer Require Import Base.Num Base.Stream Base.Vec3 C15.Samplers C04.Common.
 Import ListNotations.
@@ -34,16 +35,18 @@ Section Chips.
     let e_n := ch_mn p + ch_energy p in
     calc_momentum (ch_mn p) (ch_energy p)
     / nsqrt (n1 + nsq (ch_mn p / ch_mtarget p) + n2 * e_n / ch_mtarget p).
-  Definition ch_cos_theta (p : chips_params) (q2 : T) : T := n1 - nhalf * q2 / nsq (ch_cm_p p).
+  (** 1 - 0.5 * Q^2 / cm_p^2 *)
+  Definition ch_cos_raw (p : chips_params) (q2 : T) : T := n1 - nhalf * q2 / nsq (ch_cm_p p).
+  (** current code: clamp(1 - 0.5 * Q^2 / cm_p^2, -1, 1) *)
+  Definition ch_cos_theta (p : chips_params) (q2 : T) : T := nclamp (ch_cos_raw p q2) (- n1) n1.
 
-  (** operator(): [q2] = value returned by sample_momentum_square_(rng) (drawn BEFORE phi) *)
-  Definition chips_final (p : chips_params) (q2 : T) : M (interaction T) :=
+  (** operator() from the cosine on; the momentum transfer is drawn BEFORE phi *)
+  Definition chips_final_cos (p : chips_params) (cos_theta : T) : M (interaction T) :=
     let mn := ch_mn p in
     let mt := ch_mtarget p in
     let e_n := mn + ch_energy p in
     let p_n := calc_momentum mn (ch_energy p) in
     let cm_p := ch_cm_p p in
-    let cos_theta := ch_cos_theta p q2 in
     phi <- uniform n0 twopi ;;
     let cm_mom := vscale cm_p (from_spherical cos_theta phi) in
     let nlv1 := FV cm_mom (nsqrt (nsq cm_p + nsq mn)) in
@@ -52,6 +55,11 @@ Section Chips.
     let direction := rotate min_acc (make_unit_vector (fv_mom nlv1')) (ch_dir p) in
     let lv_e := fv_e lv - fv_e nlv1' in
     ret (Inter Scattered (fv_e nlv1' - mn) direction [] (clamp_to_nonneg (lv_e - mt))).
+
+  (** [q2] = value returned by sample_momentum_square_(rng) *)
+  Definition chips_final (p : chips_params) (q2 : T) : M (interaction T) := chips_final_cos p (ch_cos_theta p q2).
+  (** the code before commit 2618c34 (no clamp) *)
+  Definition chips_final_unclamped (p : chips_params) (q2 : T) : M (interaction T) := chips_final_cos p (ch_cos_raw p q2).
 End Chips.
 Arguments chips_params T : clear implicits.
 Arguments fourvec T : clear implicits.
